@@ -538,6 +538,198 @@ example : resolvePath [47,115,114,118] [47,46,46,47,120] = .ok [47,115,114,118,4
 example : findMount [[47,97],[47,97,47,98]] [47] [47,97,47,98,47,99] = some ([47,97,47,98], [47,99]) := by decide
 example : stringPrefixOnly [[47,97],[47,97,47,98]] [47] [47,97,47,98,47,99] = false := by decide
 
+/-! ### two-path operations (rename, symlink): both arguments are routed independently -/
+
+theorem hasPrefix_length {p k : Path} (h : hasPrefix p k = true) : k.length ≤ p.length := by
+  obtain ⟨s, rfl⟩ := hasPrefix_split h
+  simp
+
+theorem hasPrefix_self (p : Path) : hasPrefix p p = true := by
+  induction p with
+  | nil => rfl
+  | cons x xs ih => simp [hasPrefix, ih]
+
+/-- the mount `findMount` answers with is the LONGEST mount point that matches the (cleaned)
+    path at a component boundary, and the relative path is the rest of that path — for every
+    mount table, working directory and path string. -/
+theorem findMount_longest (mounts : List Path) (cwd p m rel : Path)
+    (h : findMount mounts cwd p = some (m, rel)) :
+    rel = relOf (mountKeyPath cwd p) m ∧
+    ∀ k ∈ mounts, (k = mountKeyPath cwd p ∨ mountMatches (mountKeyPath cwd p) k = true) →
+      k.length ≤ m.length := by
+  unfold findMount at h
+  generalize mountKeyPath cwd p = path at h
+  have s := findMountLoop_spec path mounts none (by simp)
+  by_cases hin : path ∈ mounts
+  · rw [s.1 hin] at h
+    simp only [Option.some.injEq, Prod.mk.injEq] at h
+    obtain ⟨hm, hr⟩ := h
+    subst hm
+    refine ⟨?_, ?_⟩
+    · rw [← hr]; simp [relOf, trimPrefix, hasPrefix_self]
+    · intro k _ hk
+      rcases hk with rfl | hk
+      · exact Nat.le_refl _
+      · exact hasPrefix_length (mountMatches_hasPrefix hk)
+  · have t := s.2 hin
+    simp only [Option.toList_none, List.nil_append] at t
+    rcases exists_best path mounts with ⟨b, hb⟩ | hnone
+    · rw [t.1 b hb] at h
+      simp only [Option.some.injEq, Prod.mk.injEq] at h
+      obtain ⟨hm, hr⟩ := h
+      subst hm
+      refine ⟨hr.symm, ?_⟩
+      intro k hk hkm
+      rcases hkm with rfl | hkm
+      · exact absurd hk hin
+      · exact hb.2.2 k hk hkm
+    · rw [t.2 hnone] at h; cases h
+
+theorem comps_sep_cons (s : Path) : comps (47 :: s) = comps s := by
+  have := comps_append_sep [] s
+  simp [comps, split] at this ⊢
+
+/-- **The relative path handed to the serving filesystem is the path's own remainder below the
+    mount point**: the components of the mount point followed by the components of the relative
+    path are exactly the components of the cleaned path — nothing is dropped, added or
+    re-interpreted, for every mount table and path string. -/
+theorem findMount_rel_faithful (mounts : List Path) (cwd p m rel : Path)
+    (h : findMount mounts cwd p = some (m, rel)) : relFaithful m rel cwd p = true := by
+  have hr := (findMount_longest mounts cwd p m rel h).1
+  have hm := (findMount_string_prefix mounts cwd p m rel h).2
+  unfold relFaithful
+  generalize mountKeyPath cwd p = key at hr hm
+  simp only [beq_iff_eq]
+  rcases hm with rfl | hm
+  · subst hr
+    simp [relOf, trimPrefix, hasPrefix_self, comps, split]
+  · simp only [mountMatches, Bool.and_eq_true, Bool.or_eq_true, beq_iff_eq] at hm
+    obtain ⟨hp, hb⟩ := hm
+    obtain ⟨s, rfl⟩ := hasPrefix_split hp
+    have htrim : trimPrefix (m ++ s) m = s := by simp [trimPrefix, hasPrefix_append]
+    subst hr
+    simp only [relOf, htrim]
+    cases s with
+    | nil =>
+      simp [comps, split]
+    | cons c cs =>
+      simp only [List.isEmpty_cons, Bool.false_eq_true, ↓reduceIte]
+      rcases hb with hb | hb
+      · obtain ⟨k', rfl⟩ := getLast_eq_snoc (by simpa [hasSuffixSlash] using hb)
+        have h1 : comps (k' ++ [47]) = comps k' := by simp [comps, split_snoc_sep, List.filter_append]
+        have e : k' ++ [47] ++ c :: cs = k' ++ 47 :: (c :: cs) := by simp
+        rw [h1, e, comps_append_sep]
+      · have : c = 47 := by simpa using hb
+        subst this
+        rw [comps_append_sep, comps_sep_cons]
+
+/-- **Two-path operations route each argument by its own lookup** (`VirtualOS.Rename`,
+    `VirtualOS.Symlink`): for every mount table, working directory and pair of path strings,
+    the operation reaches a filesystem — mount `m` with relative paths `r1`, `r2` — exactly
+    when the lookup of the FIRST path answers `(m, r1)` and the lookup of the SECOND path,
+    made on its own against the whole mount table, answers `(m, r2)`. -/
+theorem twoPath_routed_independently (mounts : List Path) (cwd p q m r1 r2 : Path) :
+    twoPath mounts cwd p q = .forward m r1 r2 ↔
+      findMount mounts cwd p = some (m, r1) ∧ findMount mounts cwd q = some (m, r2) := by
+  unfold twoPath
+  cases h1 : findMount mounts cwd p with
+  | none => simp
+  | some a =>
+    obtain ⟨m1, s1⟩ := a
+    cases h2 : findMount mounts cwd q with
+    | none => simp
+    | some b =>
+      obtain ⟨m2, s2⟩ := b
+      simp only [Option.some.injEq, Prod.mk.injEq]
+      by_cases hm : m1 = m2
+      · subst hm
+        simp only [↓reduceIte, TwoRes.forward.injEq]
+        constructor
+        · rintro ⟨rfl, rfl, rfl⟩; exact ⟨⟨rfl, rfl⟩, rfl, rfl⟩
+        · rintro ⟨⟨rfl, rfl⟩, _, rfl⟩; exact ⟨rfl, rfl, rfl⟩
+      · simp only [hm, ↓reduceIte]
+        constructor
+        · intro h; cases h
+        · rintro ⟨⟨rfl, _⟩, rfl, _⟩; exact absurd rfl hm
+
+/-- **An operation whose two paths belong to different mounts is refused**: nothing is
+    forwarded to any filesystem — for every mount table and pair of path strings. -/
+theorem cross_mount_refused (mounts : List Path) (cwd p q m1 r1 m2 r2 : Path)
+    (h1 : findMount mounts cwd p = some (m1, r1)) (h2 : findMount mounts cwd q = some (m2, r2))
+    (hne : m1 ≠ m2) : twoPath mounts cwd p q = .cross := by
+  simp [twoPath, h1, h2, hne]
+
+/-- … and so is one with a path that lies under no mount point -/
+theorem unmounted_refused (mounts : List Path) (cwd p q : Path)
+    (h : findMount mounts cwd p = none ∨ findMount mounts cwd q = none) :
+    ∀ m r1 r2, twoPath mounts cwd p q ≠ .forward m r1 r2 := by
+  intro m r1 r2 hf
+  rw [twoPath_routed_independently] at hf
+  rcases h with h | h
+  · rw [h] at hf; cases hf.1
+  · rw [h] at hf; cases hf.2
+
+/-- **What a forwarded two-path operation guarantees about BOTH arguments**: the serving mount
+    is in the table, is a component-wise prefix of each cleaned path, is the longest mount
+    point matching each of them (so neither path belongs to a nested mount), and each relative
+    path is the rest of its own cleaned path below the mount point. -/
+theorem twoPath_forward_both_longest (mounts : List Path) (cwd p q m r1 r2 : Path)
+    (h : twoPath mounts cwd p q = .forward m r1 r2) :
+    m ∈ mounts ∧
+    isCompPrefix (comps m) (comps (mountKeyPath cwd p)) = true ∧
+    isCompPrefix (comps m) (comps (mountKeyPath cwd q)) = true ∧
+    r1 = relOf (mountKeyPath cwd p) m ∧ r2 = relOf (mountKeyPath cwd q) m ∧
+    (∀ k ∈ mounts, (k = mountKeyPath cwd p ∨ mountMatches (mountKeyPath cwd p) k = true) → k.length ≤ m.length) ∧
+    (∀ k ∈ mounts, (k = mountKeyPath cwd q ∨ mountMatches (mountKeyPath cwd q) k = true) → k.length ≤ m.length) := by
+  obtain ⟨h1, h2⟩ := (twoPath_routed_independently mounts cwd p q m r1 r2).1 h
+  exact ⟨(findMount_string_prefix mounts cwd p m r1 h1).1,
+    C13_mounts_component_prefix mounts cwd p m r1 h1,
+    C13_mounts_component_prefix mounts cwd q m r2 h2,
+    (findMount_longest mounts cwd p m r1 h1).1, (findMount_longest mounts cwd q m r2 h2).1,
+    (findMount_longest mounts cwd p m r1 h1).2, (findMount_longest mounts cwd q m r2 h2).2⟩
+
+/-- both relative paths of a forwarded two-path operation are faithful remainders -/
+theorem twoPath_rels_faithful (mounts : List Path) (cwd p q m r1 r2 : Path)
+    (h : twoPath mounts cwd p q = .forward m r1 r2) :
+    relFaithful m r1 cwd p = true ∧ relFaithful m r2 cwd q = true := by
+  obtain ⟨h1, h2⟩ := (twoPath_routed_independently mounts cwd p q m r1 r2).1 h
+  exact ⟨findMount_rel_faithful mounts cwd p m r1 h1, findMount_rel_faithful mounts cwd q m r2 h2⟩
+
+/-- the two arguments are treated alike: swapping them swaps the relative paths and nothing else -/
+theorem twoPath_symmetric (mounts : List Path) (cwd p q m r1 r2 : Path) :
+    twoPath mounts cwd p q = .forward m r1 r2 ↔ twoPath mounts cwd q p = .forward m r2 r1 := by
+  rw [twoPath_routed_independently, twoPath_routed_independently]
+  exact ⟨fun h => ⟨h.2, h.1⟩, fun h => ⟨h.2, h.1⟩⟩
+
+/-- two-path routing does not depend on Go's map iteration order either -/
+theorem twoPath_order_independent (m1 m2 : List Path) (hperm : ∀ x, x ∈ m1 ↔ x ∈ m2)
+    (cwd p q : Path) : twoPath m1 cwd p q = twoPath m2 cwd p q := by
+  unfold twoPath
+  rw [findMount_order_independent m1 m2 hperm cwd p, findMount_order_independent m1 m2 hperm cwd q]
+
+-- mounts "/" and "/priv"
+def nestedMounts : List Path := [[47], [47,112,114,105,118]]
+-- "/note.txt" and "/priv/moved.txt"
+def notePath : Path := [47,110,111,116,101,46,116,120,116]
+def privMoved : Path := [47,112,114,105,118,47,109,111,118,101,100,46,116,120,116]
+
+/-- nested mount points `/` and `/priv`: `Rename("/note.txt", "/priv/moved.txt")` is refused
+    as crossing filesystems; inside one mount it is forwarded with both relative paths -/
+theorem nested_cross_refused : twoPath nestedMounts [47] notePath privMoved = .cross := by decide
+example : twoPath nestedMounts [47] privMoved notePath = .cross := by decide
+example : specTwoPath nestedMounts [47] notePath privMoved = none := by decide
+example : twoPath nestedMounts [47,112,114,105,118] [97] [46,46,47,112,114,105,118,47,98]
+    = .forward [47,112,114,105,118] [47,97] [47,98] := by decide
+example : twoPath nestedMounts [47] notePath [47,120] = .forward [47] (notePath.drop 1) [120] := by decide
+
+/-- the shortcut "resolve the second path against the first path's mount" is NOT equivalent:
+    on the same input it hands `priv/moved.txt` — a path of the nested mount — to the root
+    filesystem (this is why `twoPath_routed_independently` is stated for both arguments) -/
+theorem shortcut_routes_into_nested_mount :
+    twoPathShortcut nestedMounts [47] notePath privMoved = .forward [47] (notePath.drop 1) (privMoved.drop 1)
+    ∧ twoPath nestedMounts [47] notePath privMoved ≠ twoPathShortcut nestedMounts [47] notePath privMoved := by
+  decide
+
 /-! ### sessions -/
 
 theorem cwdAfter_append (c : Path) (a b : List SOp) : cwdAfter c (a ++ b) = cwdAfter (cwdAfter c a) b := by
